@@ -32,8 +32,19 @@ CE_BLOCK = 2048
 CE_BUDGET = 2000           # keep ordinary images inside one continuation block
 MAX_ENTRIES = 14
 
-MC_CFG = ('SPECIFICATION Spec\nCHECK_DEADLOCK FALSE\n'
-          'CONSTANTS\n MaxNameDense = %d\n MaxNameOther = %d\n')
+MC_CFG = {
+    'quick': ('SPECIFICATION Spec\nCHECK_DEADLOCK FALSE\nCONSTANTS\n MaxNameDense = 1260\n MaxNameOther = 260\n'
+              ' FileLenFi = {6, 7, 33, 100, 180, 193}\n DirLenFi = {1, 8, 31, 100, 180, 193}\n'
+              ' RelocLenFi = {1, 2, 8, 31}\n SymLenFi = {7}\n SymNames = {3, 150}\n OneMax = 520\n'),
+    'thorough': ('SPECIFICATION Spec\nCHECK_DEADLOCK FALSE\nCONSTANTS\n MaxNameDense = 1260\n MaxNameOther = 1260\n'
+                 ' FileLenFi = {5, 6, 7, 12, 13, 33, 100, 150, 179, 180, 192, 193}\n'
+                 ' DirLenFi = {1, 2, 3, 8, 30, 31, 100, 150, 179, 180, 192, 193}\n'
+                 ' RelocLenFi = {1, 2, 3, 8, 30, 31}\n SymLenFi = {6, 7, 33}\n'
+                 ' SymNames = {3, 60, 120, 150, 180}\n OneMax = 600\n'),
+}
+# TLC evaluates the recursive clauses (symlink reassembly over hundreds of component records)
+# on the Java stack
+os.environ['JAVA_TOOL_OPTIONS'] = (os.environ.get('JAVA_TOOL_OPTIONS', '') + ' -Xss64m').strip()
 
 A36 = '0123456789ABCDEFGHIJKLMNOPQRSTUVWXYZ'
 A62 = 'abcdefghijklmnopqrstuvwxyzABCDEFGHIJKLMNOPQRSTUVWXYZ0123456789'
@@ -62,6 +73,7 @@ class Expect(object):
     def __init__(self):
         self.ent = {}     # tuple of rr names -> (kind, mode, target)
         self.iso = {}     # iso path -> tuple of rr names
+        self.hist = {'rr_moved_removed': False, 'reloc_after_removed': False}
 
     def add(self, iso_path, rr_name, kind, mode, target=''):
         parent_iso = iso_path.rsplit('/', 1)[0]
@@ -89,13 +101,21 @@ def run_ops(case):
     det.reset()
     iso = pycdlib.PyCdlib()
     exp = Expect()
-    iso.new(rock_ridge=case['ver'], xa=case['xa'], interchange_level=case.get('level', 3))
+    level = case.get('level', 3)
+    iso.new(rock_ridge=case['ver'], xa=case['xa'], interchange_level=level)
+    hist = exp.hist
+    reloc_live = set()
     try:
         for k, op in enumerate(case['ops']):
             try:
                 what = op[0]
                 if what == 'dir':
                     _, ip, rr, mode = op
+                    if level < 4 and ip.count('/') % 8 == 0:
+                        # this directory gets relocated
+                        if hist['rr_moved_removed']:
+                            hist['reloc_after_removed'] = True
+                        reloc_live.add(ip)
                     iso.add_directory(ip, rr_name=rr, file_mode=mode)
                     exp.add(ip, rr, 'dir', mode)
                 elif what == 'file':
@@ -111,6 +131,10 @@ def run_ops(case):
                     iso.rm_file(op[1])
                     exp.rm(op[1])
                 elif what == 'rm_dir':
+                    if op[1] in reloc_live:
+                        reloc_live.discard(op[1])
+                        if not reloc_live:
+                            hist['rr_moved_removed'] = True   # the relocation directory goes with its last child
                     iso.rm_directory(op[1])
                     exp.rm(op[1])
                 else:
@@ -166,11 +190,25 @@ def observed_placement(rep):
     return out
 
 
-def circumstances(rep):
-    """Labels (model terms) used in violation signatures; computed from the report."""
+def _sl_comps(r):
+    out = []
+    last_flags = None
+    for e in list(r['dr']['ents']) + [x for a in r['ce'] for x in a['ents']]:
+        if e['sig'] == 'SL' and not e.get('bad'):
+            out.extend(e['comps'])
+            last_flags = e['flags']
+    return out, last_flags
+
+
+def circumstances(rep, expect):
+    """Labels (in model terms) used in violation signatures; computed from the report and from
+    what was requested.  They discriminate, they do not decide."""
     px_in_ce = cl_in_ce = sl_in_ce = nm_in_ce = False
+    placeholder_ce = 0
     blocks = set()
     for r in rep['recs']:
+        if r['rr']['has_cl'] and any(e['sig'] == 'CE' for e in r['dr']['ents']):
+            placeholder_ce += 1     # the stand-in of a relocated directory has a continuation area
         for a in r['ce']:
             blocks.add(a['block'])
             for e in a['ents']:
@@ -182,16 +220,40 @@ def circumstances(rep):
                     sl_in_ce = True
                 elif e['sig'] == 'NM':
                     nm_in_ce = True
-    reloc = any(r['rr']['has_cl'] for r in rep['recs'])
-    sl_small_head = False
-    for r in rep['recs']:
-        for e in list(r['dr']['ents']) + [x for a in r['ce'] for x in a['ents']]:
-            if e['sig'] == 'SL' and not e.get('bad'):
-                for (cf, cl, cb) in e['comps']:
-                    if cf in (2, 4) and False:
-                        sl_small_head = True
+    # symlinks: an unterminated SL chain; a piece of an ordinary component recorded as "." / ".."
+    want = {tuple(e['path']): e for e in expect if e['kind'] == 'symlink'}
+    sl_dangling = special_piece = False
+    for t in rep['tree']:
+        if t['rec'] < 0 or t['rec'] >= len(rep['recs']):
+            continue
+        comps, last_flags = _sl_comps(rep['recs'][t['rec']])
+        if last_flags is None:
+            continue
+        if last_flags & 1:
+            sl_dangling = True
+        e = want.get(tuple(t['path']))
+        if e is not None:
+            asked = bytes.fromhex(e['target']).split(b'/')
+            n_special = sum(1 for c in asked if c in (b'.', b'..'))
+            if sum(1 for c in comps if c[0] & 6) > n_special:
+                special_piece = True
     return {'px_in_ce': px_in_ce, 'cl_in_ce': cl_in_ce, 'sl_in_ce': sl_in_ce, 'nm_in_ce': nm_in_ce,
-            'relocation': reloc, 'ce_blocks': len(blocks)}
+            'placeholder_ce': ('none', 'one', 'many')[min(placeholder_ce, 2)], 'sl_dangling': sl_dangling, 'special_piece': special_piece,
+            'relocation': any(r['rr']['has_cl'] for r in rep['recs']), 'ce_blocks': len(blocks)}
+
+
+def lean(rep):
+    """drop what no clause reads (the judge's JSON is the bottleneck)"""
+    for r in rep['recs']:
+        for k in ('pos', 'k', 'child', 'size', 'flags', 'nce_dr'):
+            r.pop(k, None)
+        for e in list(r['dr']['ents']) + [x for a in r['ce'] for x in a['ents']]:
+            e.pop('stamps', None)
+            e.pop('raw', None)
+    for t in rep['tree']:
+        t.pop('size', None)
+        t.pop('extent', None)
+    return rep
 
 
 def realise(case):
@@ -202,13 +264,13 @@ def realise(case):
             'expect': exp.listing(),
             'reopen': {'done': False, 'ok': True, 'view': [], 'exc': '', 'msg': ''}}
     info = {'id': case['id'], 'failure': failure, 'sha': None, 'size': 0, 'agree': 0, 'compared': 0,
-            'circ': {}, 'classes': []}
+            'circ': {}, 'hist': exp.hist}
     if data is not None:
         rep = susp.decode(data, names='hex')
         item['rep'] = rep
         info['sha'] = hashlib.sha256(data).hexdigest()
         info['size'] = len(data)
-        info['circ'] = circumstances(rep)
+        info['circ'] = circumstances(rep, item['expect'])
         if case.get('reopen', True):
             item['reopen'] = reopen_view(data)
         info['reopen_exc'] = item['reopen']['exc']
@@ -228,6 +290,7 @@ def realise(case):
                     break
             else:
                 info.setdefault('disagree', []).append([ident[:20], kind, dr, ce, reclen, [c[:3] for c in cands][:2]])
+        lean(rep)
     return item, info
 
 
@@ -322,6 +385,7 @@ class Pack(object):
         self.serial = 0
         self.chain = False
         self.wits = []
+        self.ce_one = 0
 
     def room(self, celen, count=1):
         return self.n + count <= MAX_ENTRIES and self.ce + celen <= CE_BUDGET
@@ -372,49 +436,80 @@ class Pack(object):
 
     def case(self, cid):
         return {'id': cid, 'ver': self.ver, 'xa': self.xa, 'level': self.level, 'ops': self.ops,
-                'predict': self.predict, 'family': 'witness', 'wits': self.wits}
+                'predict': self.predict, 'family': 'witness', 'wits': self.wits,
+                'ce_need': self.ce, 'ce_one': self.ce_one}
 
 
 def wit_key(w):
     return (w['ver'], w['xa'], w['kind'], w['lenfi'], w['nm'], w['fam'], w['n'])
 
 
-def pack_witnesses(wits, prefix):
-    """group witnesses into images per (version, xa), within the CE budget of one block"""
+def pack_witnesses(wits, prefix, huge_per_combo=2):
+    """Group witnesses into images per (version, xa), within the CE budget of one block.
+    Returns (cases, skipped) - witnesses whose single record needs more than one block of
+    continuation area are realised only huge_per_combo times per (version, xa)."""
     cases = []
+    skipped = 0
     groups = {}
     for w in wits:
         groups.setdefault((w['ver'], w['xa']), []).append(w)
+
+    def flush(cur):
+        if cur.n:
+            cases.append(cur.case('%s%04d' % (prefix, len(cases))))
+
     for (ver, xa) in sorted(groups):
-        ws = sorted(groups[(ver, xa)], key=lambda w: (w['kind'], w['lenfi'], w['fam'], w['nm'], w['n']))
-        # interleave cheap and expensive entries: take alternately from both ends of the list
-        # ordered by CE need, so that images mix in-record and continued entries
-        ws.sort(key=lambda w: w['celen'])
+        ws = groups[(ver, xa)]
+        huge = sorted([w for w in ws if w['celen'] > CE_BLOCK], key=lambda w: (w['celen'], w['fam'], w['n'], w['nm']))
+        skipped += max(0, len(huge) - huge_per_combo)
+        for w in huge[:1] + huge[-(huge_per_combo - 1):] if huge else []:
+            cur = Pack(ver, xa)
+            cur.add(w, 'plain')
+            cur.ce_one = w['celen']
+            flush(cur)
+        # relocated directories whose records need a continuation area: one per image
+        reloc = [w for w in ws if w['kind'] in ('cl', 'moved') and w['celen'] <= CE_BLOCK]
+        for w in sorted([w for w in reloc if w['needce']], key=wit_key):
+            cur = Pack(ver, xa)
+            cur.add(w, 'plain')
+            flush(cur)
+        cur = Pack(ver, xa)
+        for w in sorted([w for w in reloc if not w['needce']], key=wit_key):
+            if cur.n >= 6:
+                flush(cur)
+                cur = Pack(ver, xa)
+            cur.add(w, 'plain')
+        flush(cur)
+        # everything else: order by CE need and take alternately from both ends, so that images
+        # mix in-record and continued entries
+        rest = sorted([w for w in ws if w['kind'] not in ('cl', 'moved') and w['celen'] <= CE_BLOCK],
+                      key=lambda w: (w['celen'],) + wit_key(w))
         order = []
-        i, j = 0, len(ws) - 1
+        i, j = 0, len(rest) - 1
         while i <= j:
-            order.append(ws[j])
+            order.append(rest[j])
             j -= 1
             for _ in range(3):
                 if i <= j:
-                    order.append(ws[i])
+                    order.append(rest[i])
                     i += 1
         cur = Pack(ver, xa)
         for w in order:
             variants = ['plain']
-            if w['kind'] == 'symlink' and w['heads']:
+            if w['kind'] == 'symlink' and (1 in w['heads'] or 2 in w['heads']):
+                # a component is split and the piece in front of the split has 1 or 2 bytes
                 variants += ['dots', 'dot1', 'dot2']
+            elif w['kind'] == 'symlink' and w['heads'] and w['why'] in ('first', 'last'):
+                variants += ['dots']
             if w['kind'] in ('file', 'dir') and w['nm'] >= 9 and w['why'] in ('below', 'above') and w['lenfi'] in (7, 8):
                 variants.append('utf8')
             for v in variants:
-                need = w['celen'] if w['kind'] not in ('cl', 'moved') else 2 * (w['celen'] + 16)
-                if cur.n and not cur.room(need):
-                    cases.append(cur.case('%s%04d' % (prefix, len(cases))))
+                if cur.n and not cur.room(w['celen']):
+                    flush(cur)
                     cur = Pack(ver, xa)
                 cur.add(w, v)
-        if cur.n:
-            cases.append(cur.case('%s%04d' % (prefix, len(cases))))
-    return cases
+        flush(cur)
+    return cases, skipped
 
 
 def depth_cases(tier):
@@ -483,6 +578,9 @@ def history_cases():
                 ['dir', base + '/M2', 'moved-two', 0o040555], ['rm_file', base + '/M1/X.;1'],
                 ['rm_dir', base + '/M1'], ['dir', base + '/M3', 'm' * 190, 0o040755],
                 ['dir', base + '/M3/SUB', 'below-moved', 0o040755]]})
+            cases.append({'id': 'hist-relocagain-' + tag, 'ver': ver, 'xa': xa, 'level': 3, 'family': 'history', 'ops': chain + [
+                ['dir', base + '/M1', 'moved-one', 0o040755], ['rm_dir', base + '/M1'],
+                ['dir', base + '/M2', 'moved-two', 0o040755], ['file', base + '/M2/F.;1', 'in-moved-two', 0o100644, 3]]})
             cases.append({'id': 'hist-relocempty-' + tag, 'ver': ver, 'xa': xa, 'level': 3, 'family': 'history', 'ops': chain + [
                 ['dir', base + '/M1', 'moved-one', 0o040755], ['rm_dir', base + '/M1'],
                 ['file', '/PLAIN.;1', 'plain', 0o100644, 4]]})
@@ -504,88 +602,153 @@ def overflow_cases(dense):
             for k in range(count):
                 ops.append(['file', '/' + iso_name('file', 7, k), rr_name(250, k), 0o100644, 1])
             cases.append({'id': 'ceblock-%s-%s-%s' % (tag, ver, 'xa' if xa else 'no'), 'ver': ver, 'xa': xa,
-                          'level': 3, 'ops': ops, 'family': 'ceblock', 'ce_need': count * per})
+                          'level': 3, 'ops': ops, 'family': 'ceblock', 'ce_need': count * per, 'ce_one': per})
+        # the continuation areas of removed files: fill the block, remove everything, fill it again
+        ops = []
+        for k in range(fit):
+            ops.append(['file', '/' + iso_name('file', 7, k), rr_name(250, k), 0o100644, 1])
+        for k in range(fit):
+            ops.append(['rm_file', '/' + iso_name('file', 7, k)])
+        for k in range(fit):
+            ops.append(['file', '/' + iso_name('file', 7, 100 + k), rr_name(250, 100 + k), 0o100444, 1])
+        cases.append({'id': 'ceblock-refill-%s-%s' % (ver, 'xa' if xa else 'no'), 'ver': ver, 'xa': xa,
+                      'level': 3, 'ops': ops, 'family': 'ceblock', 'ce_need': fit * per, 'ce_ever': 2 * fit * per,
+                      'ce_one': per})
     return cases
 
 
-def random_cases(seed, count):
-    """seeded random add/remove histories over boundary-ish lengths"""
+def random_cases(seed, count, wits):
+    """Seeded random add / remove / re-add histories.  Entries are drawn from the witnesses TLC
+    printed, so the continuation bytes every entry needs are known exactly (celen): the harness
+    keeps the need of the live entries within one block (more is a listed defect) and records
+    the need of everything ever added (continuation areas of removed files are a circumstance).
+    The harness keeps its own tree so that every operation is one pycdlib must accept."""
     rnd = random.Random(seed)
-    lens = [1, 2, 7, 30, 100, 120, 130, 140, 147, 148, 149, 150, 160, 170, 180, 200, 216, 217, 250, 251, 260, 400, 520]
-    comps_pool = [-2, -3, 0, 1, 2, 8, 60, 120, 248, 249, 250, 254, 255, 256]
+    pool = {}
+    pairs = {}
+    for w in wits:
+        if not w['ok'] or w['celen'] > 1500 or (not w['needce'] and w['celen'] > 0):
+            continue
+        if w['kind'] in ('file', 'symlink') and w['lenfi'] - 3 > 30:
+            continue
+        if w['kind'] in ('dir', 'cl', 'moved') and w['lenfi'] > 8:
+            continue
+        key = (w['ver'], w['xa'])
+        if w['kind'] in ('cl', 'moved'):
+            pairs.setdefault(key + (w['lenfi'], w['nm']), {})[w['kind']] = w
+        elif w['kind'] in ('file', 'dir', 'symlink'):
+            pool.setdefault(key + (w['kind'],), []).append(w)
+    for k in pool:
+        pool[k].sort(key=wit_key)
+    reloc = {}
+    for k in sorted(pairs):
+        if len(pairs[k]) == 2:
+            reloc.setdefault(k[:2], []).append(pairs[k])
+    modes_d = [0o040755, 0o040555, 0o040700]
+    modes_f = [0o100644, 0o100444, 0o100755]
     cases = []
     for c in range(count):
         ver = rnd.choice(VERSIONS)
         xa = rnd.random() < 0.5
+        key = (ver, xa)
         ops = []
-        live_files = []
-        live_dirs = ['']
-        empty_dirs = set()
-        ce = 0
+        dirs = {'': set()}        # iso path -> names of children
+        order = ['']              # directories in creation order
+        files = []                # live files and symlinks (iso paths)
+        removed = []              # (parent, name, kind, lenfi) removed earlier
+        cost = {}                 # iso path -> continuation bytes (exact, from TLC)
+        ever = 0
+        one = 0
         serial = 0
-        for _ in range(rnd.randint(4, 16)):
+        deep = rnd.random() < 0.35
+        leaky = rnd.random() < 0.1     # let the bytes of removed entries count beyond one block
+        steps = rnd.randint(5, 26 if deep else 16)
+        for _ in range(steps):
             serial += 1
             r = rnd.random()
-            if r < 0.18 and live_files:
-                f = live_files.pop(rnd.randrange(len(live_files)))
+            if r < 0.12 and files:
+                f = files.pop(rnd.randrange(len(files)))
+                par, name = f.rsplit('/', 1)
+                dirs[par].discard(name)
+                cost.pop(f, None)
+                removed.append((par, name, 'file', len(name)))
                 ops.append(['rm_file', f])
                 continue
-            nm = rnd.choice(lens)
-            est = max(0, nm - 100) + 120 if nm > 120 else 0
-            if ce + est > 1500:
-                nm = rnd.choice(lens[:6])
-                est = 0
-            parent = rnd.choice(live_dirs)
-            depth = parent.count('/') + 1
-            if r < 0.40:
-                if depth % 8 == 0:
-                    est = 2 * est + 240
-                    if ce + est > 1500:
-                        continue
-                name = iso_name('dir', rnd.choice([1, 2, 5, 8]) if False else 5, serial)
-                ops.append(['dir', parent + '/' + name, rr_name(max(nm, 2), serial), rnd.choice([0o040755, 0o040555, 0o040700])])
-                if depth < 18:
-                    live_dirs.append(parent + '/' + name)
-            elif r < 0.70:
-                name = iso_name('file', rnd.choice([6, 7, 13, 33]), serial)
-                ops.append(['file', parent + '/' + name, rr_name(max(nm, 2), serial), rnd.choice([0o100644, 0o100444, 0o100755]), rnd.randint(0, 40)])
-                live_files.append(parent + '/' + name)
+            if r < 0.20:
+                empties = [d for d in order if d and not dirs[d]]
+                if empties:
+                    d = rnd.choice(empties)
+                    par, name = d.rsplit('/', 1)
+                    dirs[par].discard(name)
+                    del dirs[d]
+                    order.remove(d)
+                    cost.pop(d, None)
+                    removed.append((par, name, 'dir', len(name)))
+                    ops.append(['rm_dir', d])
+                    continue
+            if deep and rnd.random() < 0.7:
+                parent = order[-1]
+            elif rnd.random() < 0.5:
+                parent = rnd.choice(order[-3:])
             else:
-                ncomp = rnd.randint(1, 12)
-                comps = [rnd.choice(comps_pool) for _ in range(ncomp)]
-                if rnd.random() < 0.3:
-                    comps = [-1] + comps
-                elif comps[0] == 0:
-                    comps[0] = 1
-                tl = sum(2 + max(x, 0) for x in comps)
-                est += tl + 5 * (tl // 250 + 1)
-                if ce + est > 1500:
-                    comps = comps[:1]
-                    est = 0
-                name = iso_name('symlink', rnd.choice([6, 7, 13]), serial)
-                ops.append(['symlink', parent + '/' + name, rr_name(max(nm, 2), serial),
-                            target_text(comps, rnd.choice(['plain', 'plain', 'dots', 'dot1', 'dot2']))])
-                live_files.append(parent + '/' + name)
-            ce += est
-        # prefer chains: make later directories nest
+                parent = rnd.choice(order)
+            depth = parent.count('/') + 1
+            kind = 'dir' if r < 0.50 else ('file' if r < 0.75 else 'symlink')
+            if kind == 'dir' and depth % 8 == 0:
+                cands = reloc.get(key, [])
+                if not cands or depth > 16:
+                    continue
+                pr = rnd.choice(cands)
+                w = pr['cl']
+                need = pr['cl']['celen'] + pr['moved']['celen']
+                biggest = max(pr['cl']['celen'], pr['moved']['celen'])
+            else:
+                cands = pool.get(key + (kind,), [])
+                if not cands:
+                    continue
+                w = rnd.choice(cands)
+                if deep and kind == 'dir' and rnd.random() < 0.7:
+                    small = [x for x in cands if x['celen'] == 0]
+                    w = rnd.choice(small) if small else w
+                need = w['celen']
+                biggest = need
+            if sum(cost.values()) + need > CE_BUDGET:
+                continue
+            if ever + need > CE_BUDGET and not leaky:
+                continue
+            again = [x for x in removed if x[0] == parent and x[0] in dirs and x[1] not in dirs[x[0]]
+                     and (x[2] == 'dir') == (kind == 'dir') and x[3] == w['lenfi']]
+            if again and rnd.random() < 0.6:
+                name = rnd.choice(again)[1]       # the same ISO9660 identifier again
+            else:
+                name = iso_name(kind, w['lenfi'], serial)
+            if name in dirs[parent]:
+                continue
+            path = parent + '/' + name
+            rr = rr_name(w['nm'], serial, 1 if (rnd.random() < 0.1 and w['nm'] >= 9) else 0)
+            if any(o[0] in ('dir', 'file', 'symlink') and o[1].rsplit('/', 1)[0] == parent and o[2] == rr
+                   and o[1].rsplit('/', 1)[1] in dirs[parent] for o in ops):
+                continue
+            if kind == 'dir':
+                ops.append(['dir', path, rr, rnd.choice(modes_d)])
+                dirs[path] = set()
+                order.append(path)
+            elif kind == 'file':
+                ops.append(['file', path, rr, rnd.choice(modes_f), rnd.randint(0, 40)])
+                files.append(path)
+            else:
+                variant = rnd.choice(['plain', 'plain', 'dots', 'dot1', 'dot2'])
+                target = target_text(w['comps'], variant)
+                if not target:
+                    continue
+                ops.append(['symlink', path, rr, target])
+                files.append(path)
+            dirs[parent].add(name)
+            cost[path] = need
+            ever += need
+            one = max(one, biggest)
         cases.append({'id': 'rand-%d-%04d' % (seed, c), 'ver': ver, 'xa': xa, 'level': 3, 'ops': ops,
-                      'family': 'random'})
-    # deep random chains with content (relocation under random histories)
-    for c in range(max(2, count // 6)):
-        ver = rnd.choice(VERSIONS)
-        xa = rnd.random() < 0.5
-        ops = []
-        p = ''
-        d = rnd.randint(7, 11)
-        for k in range(1, d + 1):
-            p += '/' + iso_name('dir', 3, k)
-            ops.append(['dir', p, rr_name(rnd.choice([2, 8, 30, 150, 190] if k == 8 else [2, 8, 30]), k), 0o040755])
-            if rnd.random() < 0.5:
-                ops.append(['file', p + '/' + iso_name('file', 7, 100 + k), rr_name(rnd.choice([3, 20, 160]), 100 + k), 0o100644, 3])
-        if d >= 8 and rnd.random() < 0.5:
-            ops.append(['rm_dir', p] if d == 8 and not any(o[1].startswith(p + '/') for o in ops) else ['file', p + '/LAST.;1', 'last', 0o100444, 1])
-        cases.append({'id': 'randdeep-%d-%04d' % (seed, c), 'ver': ver, 'xa': xa, 'level': 3, 'ops': ops,
-                      'family': 'random'})
+                      'family': 'random', 'ce_need': sum(cost.values()), 'ce_ever': ever, 'ce_one': one})
     return cases
 
 
@@ -593,8 +756,7 @@ def random_cases(seed, count):
 # the check
 # ----------------------------------------------------------------------------------------
 def mc_witnesses(tier):
-    dense, other = (1260, 300) if tier == 'quick' else (1260, 1260)
-    out, stats = tlc.run_tlc('MC_susp', MC_CFG % (dense, other), workers=16, timeout=1500, heap='6g')
+    out, stats = tlc.run_tlc('MC_susp', MC_CFG[tier], workers=16, timeout=1500, heap='6g')
     tlc.need_ok(out, stats, 'MC_susp')
     seen = {}
     n_lines = 0
@@ -610,28 +772,23 @@ def mc_witnesses(tier):
 
 def run(ctx):
     t0 = det.real_time()
+    wits, mc_stats, n_lines = mc_witnesses(ctx.tier)
+    print('MC_susp: %d distinct states, %d transitions, %d witness lines, %d distinct witnesses (%.1fs)' % (
+        mc_stats['distinct'], mc_stats['generated'], n_lines, len(wits), det.real_time() - t0))
+    sys.stdout.flush()
+    placeable = [w for w in wits if w['ok'] and w['kind'] in ('file', 'dir', 'symlink', 'cl', 'moved')]
+    dense = {(w['ver'], w['xa'], w['nm']): w for w in wits
+             if w['kind'] == 'file' and w['lenfi'] == 7 and w['ok']}
+    cases, skipped_huge = pack_witnesses(placeable, 'w')
+    cases += depth_cases(ctx.tier)
+    cases += history_cases()
+    cases += overflow_cases(dense)
+    cases += random_cases(ctx.seed, 600 if ctx.tier == 'thorough' else 40, wits)
     if getattr(ctx, 'replay', None):
+        # re-run one saved case (the model is still enumerated so that the evidence stays whole)
         with open(ctx.replay) as f:
             doc = json.load(f)
         cases = [doc['replay']]
-        wits, mc_stats, n_lines = [], {'generated': 0, 'distinct': 0}, 0
-        placeable = []
-    else:
-        wits, mc_stats, n_lines = mc_witnesses(ctx.tier)
-        print('MC_susp: %d distinct states, %d transitions, %d witness lines, %d distinct witnesses (%.1fs)' % (
-            mc_stats['distinct'], mc_stats['generated'], n_lines, len(wits), det.real_time() - t0))
-        sys.stdout.flush()
-        placeable = [w for w in wits if w['ok'] and w['kind'] in ('file', 'dir', 'symlink', 'cl', 'moved')]
-        dense = {(w['ver'], w['xa'], w['nm']): w for w in wits
-                 if w['kind'] == 'file' and w['lenfi'] == 7 and w['ok']}
-        cases = pack_witnesses(placeable, 'w')
-        cases += depth_cases(ctx.tier)
-        cases += history_cases()
-        cases += overflow_cases(dense)
-        if ctx.tier == 'thorough':
-            cases += random_cases(ctx.seed, 600)
-        else:
-            cases += random_cases(ctx.seed, 40)
     print('%d cases to realise' % len(cases))
     sys.stdout.flush()
 
@@ -645,16 +802,11 @@ def run(ctx):
     by_id = {c['id']: c for c in cases}
     infos = {}
     items = []
-    seen_sha = {}
-    alias = {}
+    seen_sha = set()
     for (item, info) in results:
         infos[item['id']] = info
-        key = info['sha']
-        if key is not None and key in seen_sha and False:
-            alias.setdefault(seen_sha[key], []).append(item['id'])
-            continue
-        if key is not None:
-            seen_sha.setdefault(key, item['id'])
+        if info['sha'] is not None:
+            seen_sha.add(info['sha'])
         items.append(item)
     fails, jstats = judge.judge_sharded('Judge_Susp', items, shards=8)
     t2 = det.real_time()
@@ -671,25 +823,26 @@ def run(ctx):
         info = infos[cid]
         ctx.note('cases_' + case.get('family', 'replay'))
         for cl in fails.get(cid, []):
-            sig = {'clause': cl, 'ver': case['ver'], 'xa': case['xa']}
             circ = info.get('circ') or {}
+            sig = {'clause': cl, 'ver': case['ver'], 'xa': case['xa']}
             if cl == 'ImageProduced':
                 f = info['failure'] or {}
                 sig['exc'] = f.get('exc', '')
                 sig['at'] = 'write' if f.get('op') == 'write' else 'edit'
                 sig['ce_need_gt_block'] = case.get('ce_need', 0) > CE_BLOCK
+                sig['ce_one_gt_block'] = case.get('ce_one', 0) > CE_BLOCK
+                sig['ce_ever_gt_block'] = case.get('ce_ever', case.get('ce_need', 0)) > CE_BLOCK
+                sig['reloc_after_removed'] = bool((info.get('hist') or {}).get('reloc_after_removed'))
                 detail = 'no image: %s' % (f,)
-            elif cl == 'ReopenAgrees':
-                sig['exc'] = info.get('reopen_exc', '')
-                sig['px_in_ce'] = bool(circ.get('px_in_ce'))
-                sig['cl_in_ce'] = bool(circ.get('cl_in_ce'))
-                sig['sl_in_ce'] = bool(circ.get('sl_in_ce'))
-                detail = 'pycdlib reading its own image: %s %s' % (info.get('reopen_exc'), info.get('reopen_msg'))
             else:
-                sig['relocation'] = bool(circ.get('relocation'))
-                sig['sl_in_ce'] = bool(circ.get('sl_in_ce'))
-                sig['family'] = case.get('family', 'replay')
-                detail = 'clause %s false on the report of the independent reader' % cl
+                for k in ('px_in_ce', 'sl_dangling', 'special_piece'):
+                    sig[k] = bool(circ.get(k))
+                sig['placeholder_ce'] = circ.get('placeholder_ce', 'none')
+                if cl == 'ReopenAgrees':
+                    sig['exc'] = info.get('reopen_exc', '')
+                    detail = 'pycdlib reading its own image: %s %s' % (info.get('reopen_exc'), info.get('reopen_msg'))
+                else:
+                    detail = 'clause %s false on the report of the independent reader' % cl
             replay = {k: v for k, v in case.items() if k not in ('predict', 'wits')}
             ctx.violation(sig, detail, replay)
 
@@ -715,6 +868,7 @@ def run(ctx):
         'witnesses_distinct': len(wits),
         'witnesses_realised': len(placeable),
         'witnesses_unplaceable': len([w for w in wits if not w['ok']]),
+        'witnesses_over_one_block_not_realised': skipped_huge,
         'placement_classes': len(classes),
         'placement_compared': compared,
         'placement_agrees_with_model': agree,
